@@ -18,7 +18,9 @@ MANIFEST = dict(
          "controlled fake worker (several oracles, k) and the cf worker with 1-8 processes and several "
          "max_concurrent values; all outputs compared with each other and with the Coq reference value.",
     note="partial: pool timing / cloudpickle / fileformats are runtime; workflows are those with static job counts "
-         "(split nodes combined), not the state-propagating shapes of C03.",
+         "(split nodes combined); state-propagating shapes (split over three fields, partial combiner, element-wise "
+         "downstream consumer) are compared across debug / fake (out-of-order oracles) / cf workers by the driver "
+         "only (their grouping semantics is inside the uninterpreted body of the Coq model).",
     technique="Coq proof (invariant: every stored result is body applied to the stored results of the upstream jobs; induction along the topological order) + differential execution across workers",
     design="§8 Group D / C17",
 )
@@ -36,7 +38,9 @@ RULE = ("the outputs of one generated workflow (2-6 nodes, some split, <=10 jobs
 
 SPEC = """
 Definition spec_ok (c : case_t) : bool :=
-  (c_status c =? 0) && outs_eqb (c_outs c) (reference_outputs tv T (c_graph c)).
+  (* runs whose outputs are not in the model's tree encoding (state-propagating shapes) carry no outputs here:
+     they are compared with the sequential worker's outputs by the driver *)
+  (c_status c =? 0) && (is_nil (c_outs c) || outs_eqb (c_outs c) (reference_outputs tv T (c_graph c))).
 """
 
 
@@ -56,6 +60,24 @@ def run(ctx):
             grp.append(dict(nodes=nodes, k=rng.choice([None, 1, 2, nj]), fail=[], oracle=[], mode="cf", n_procs=n_procs))
         groups.append((len(extra), len(grp)))
         extra += grp
+    # state-propagating shapes: a node split over three fields with a partial combiner, read element-wise by a
+    # downstream node that inherits the remaining state; out-of-order completions inside the groups
+    sgroups = []
+    for c in [c.get("case", c) for c in ctx.corpus()]:
+        if c.get("mode") == "state":            # corpus cases get the sequential run as their reference
+            sgroups.append((len(extra), 2))
+            extra += [dict(nodes=c["nodes"], k=None, fail=[], oracle=[], mode="state_sync"), dict(c)]
+    for _ in range(ctx.budget(3, 30)):
+        nodes = fakes.gen_state_nodes(rng)
+        nj = sum(fakes.njobs(n) for n in nodes)
+        grp = [dict(nodes=nodes, k=None, fail=[], oracle=[], mode="state_sync")]
+        for visp in (0.0, 0.5, 1.0):
+            grp.append(dict(nodes=nodes, k=rng.choice([None, None, 2, 3]), fail=[],
+                            oracle=fakes.gen_oracle(rng, nj, multi=0.15, visp=visp), mode="state"))
+        grp.append(dict(nodes=nodes, k=rng.choice([None, 2]), fail=[], oracle=[], mode="state_cf",
+                        n_procs=rng.choice([2, 4])))
+        sgroups.append((len(extra), len(grp)))
+        extra += grp
     out, cases, obs, usable, bad = fakes.drive(
         ctx, "c17", SPEC, ctx.budget(10, 150), ctx.budget(3, 30), ctx.budget(6, 200), RULE,
         "outputs differ from the reference evaluation of the workflow", fail_p=0.0, extra_cases=extra)
@@ -73,6 +95,20 @@ def run(ctx):
                 observed=[o.get("outputs") if o.get("outcome") == "ok" else o.get("msg") for _, o in outs],
                 expected="identical outputs under every configuration", kind="spec",
                 note="outputs depend on worker / schedule / max_concurrent"))
+    nstate = 0
+    for start, n in sgroups:
+        outs = [(cases[base + start + j], obs[base + start + j]) for j in range(n)]
+        driven = [(c, o) for c, o in outs if o.get("outcome") in ("ok", "error")]
+        ref = outs[0][1].get("outputs") if outs[0][1].get("outcome") == "ok" else None    # sequential (debug) worker
+        nstate += 1
+        for c, o in driven[1:]:
+            if ref is None or o.get("outcome") != "ok" or o.get("outputs") != ref:
+                out.failures.append(Failure(
+                    case=c, observed=fakes.slim(o),
+                    expected={"outputs_of_the_sequential_worker": ref}, kind="spec",
+                    note="state-propagating workflow: outputs depend on the completion order / worker"))
+                break
+    out.extra["state_propagating_workflows_compared"] = nstate
     out.extra["workflows_compared_across_workers"] = ngroups
     out.extra["configurations_per_workflow"] = groups[0][1] if groups else 0
     return out
